@@ -8,6 +8,7 @@ import (
 	"time"
 
 	bpmn "github.com/olive-io/bpmn/v2"
+	"github.com/olive-io/bpmn/v2/pkg/event"
 
 	"verifharness/internal/eng"
 	"verifharness/internal/rec"
@@ -41,6 +42,8 @@ type genOpts struct {
 	// errNoExit: no handler that EXITS (the token ends at the task: inside a sub-process that empties the scope and the
 	// sub-process returns, inlined nothing returns — the two programs are not comparable on such an answer)
 	errNoExit bool
+	// loopEvents: the instance is created with event ingress and egress on one fan-out
+	loopEvents bool
 	// lagCheck: the instance carries a lagging subscriber (eng.LagSubscriber); report what it read at the end
 	lagCheck bool
 	undeclared bool
@@ -394,7 +397,15 @@ func runGraphCase(out *rec.Out, fam string, g *eng.Graph, vars map[string]any, v
 			stats["cases_after_an_earlier_document_with_the_same_ids"]++
 		}
 	}
-	in, defs, err := eng.Start(xmlText, vars)
+	var startOpts []bpmn.Option
+	if o.loopEvents {
+		// the instance's own events come back to it (ingress and egress on one fan-out — what model.New and an event-wired
+		// process set do): end events, throw events … raise events every node of the instance is offered
+		fan := event.NewFanOut()
+		startOpts = append(startOpts, bpmn.WithEventIngress(fan), bpmn.WithEventEgress(fan))
+		stats["instances_with_their_events_looped_back"]++
+	}
+	in, defs, err := eng.Start(xmlText, vars, startOpts...)
 	if err != nil {
 		out.Line("harness-error %v", err)
 		return
